@@ -54,6 +54,17 @@ impl Repr {
     }
 }
 
+#[cfg(aranya_core_verif)]
+impl Repr {
+    /// The reference count of heap storage, if any (verification builds only).
+    pub fn verif_strong(&self) -> Option<usize> {
+        match self {
+            Self::Heap(s) => Some(s.verif_strong()),
+            _ => None,
+        }
+    }
+}
+
 impl Default for Repr {
     fn default() -> Self {
         Self::Static("")
@@ -211,6 +222,14 @@ mod arc {
         }
     }
 
+    #[cfg(aranya_core_verif)]
+    impl ArcStr {
+        /// The current reference count (verification builds only).
+        pub fn verif_strong(&self) -> usize {
+            self.inner().strong.load(atomic::Ordering::SeqCst)
+        }
+    }
+
     impl ArcStrInner {
         /// Allocate an uninitialized `ArcStrInner`.
         fn allocate(len: usize) -> NonNull<Self> {
@@ -237,6 +256,8 @@ mod arc {
 
     impl Clone for ArcStr {
         fn clone(&self) -> Self {
+            #[cfg(aranya_core_verif)]
+            crate::verif_hook::yield_point(crate::verif_hook::SITE_ARCSTR_CLONE_ADD);
             let old = self.inner().strong.fetch_add(1, atomic::Ordering::Relaxed);
 
             // This will only fail if someone does `loop { mem::forget(x.clone()) }`.
@@ -249,12 +270,18 @@ mod arc {
 
     impl Drop for ArcStr {
         fn drop(&mut self) {
+            #[cfg(aranya_core_verif)]
+            crate::verif_hook::yield_point(crate::verif_hook::SITE_ARCSTR_DROP_SUB);
             if self.inner().strong.fetch_sub(1, atomic::Ordering::Release) != 1 {
                 return;
             }
 
+            #[cfg(aranya_core_verif)]
+            crate::verif_hook::yield_point(crate::verif_hook::SITE_ARCSTR_DROP_FENCE);
             atomic::fence(atomic::Ordering::Acquire);
 
+            #[cfg(aranya_core_verif)]
+            crate::verif_hook::yield_point(crate::verif_hook::SITE_ARCSTR_DROP_FREE);
             let layout = Layout::for_value(self.inner());
 
             // SAFETY: We have ensured we are the only owner of this arc
